@@ -317,4 +317,4 @@ PROP = Prop(
                     min_nontrivial=200, doc="validation iff out of range; differential vs Scores")],
 )
 
-RULE_EXTRA = ("uint8 / bool / float32 (dyadic and arbitrary) / float16 arrays; perfectly separated classes; threshold_at_metric on all scores and on grids; == / swap() against Scores; a NaN next to an out-of-range value (only 'must raise' asserted); queries before and after assignment through the setters. Labels and scores as column / row / grid; long-double scores outside [0,1] by less than double precision; float32 / float16 label columns with a Python-float genuine label.")
+RULE_EXTRA = ("uint8 / bool / float32 (dyadic and arbitrary) / float16 arrays; perfectly separated classes; threshold_at_metric on all scores and on grids; == / swap() against Scores; a NaN next to an out-of-range value (only 'must raise' asserted); queries before and after assignment through the setters. Labels and scores as column / row / grid; long-double scores outside [0,1] by less than double precision; float32 / float16 label columns with a Python-float genuine label. from_labels must reject what the constructor rejects.")
